@@ -8,10 +8,11 @@ COMMON_ASSUME = [
 
 PROPS = {
     "C01": {
-        "lean": ["WsVerif.Props.C01", "WsVerif.Bridge.C01"],
+        "lean": ["WsVerif.Props.C01", "WsVerif.Props.C01Seq", "WsVerif.Bridge.C01"],
         "level_text": "Kernel-checked theorems for every header in the domain and every byte string under every chunking: "
                       "encoder = RFC 6455 §5.2 arithmetic layout (minimal form), HeaderSize = emitted length, both decoders = §5.2 decoder "
-                      "(value, error class, bytes consumed) and equal to each other, header and frame round trips. Model tied to the source by a "
+                      "(value, error class, bytes consumed) and equal to each other, in whatever state the message reader is (the decoder keeps nothing "
+                      "from one header to the next: nextFrame_reports_decoded), header and frame round trips. Model tied to the source by a "
                       "regenerated translation of HeaderSize/constants (bridge lemma) and ~50k-case differential correspondence incl. a "
                       "bounded-exhaustive header lattice; the oracle also judges the implementation's bytes directly.",
         "level_note": "Trusted: Lean kernel, my reading of §5.2 (Spec/Header.lean), wsfacts translator, the correspondence harness; "
@@ -19,7 +20,7 @@ PROPS = {
         "rule": "Bounded-exhaustive lattice Fin x Rsv(0..7) x OpCode(0..15) x Masked x 3 keys x 16 length classes "
                 "(0,1,124..127,255,256,65534..65537,2^31-1,2^31,2^32,2^63-1) through WriteHeader/HeaderSize; "
                 "ReadHeader and Reader.NextFrame(SkipHeaderCheck) on every lattice header + trailing garbage under "
-                "chunkings {whole,1,3}, every truncation point of a sample (EOF and failing transport), random and "
+                "chunkings {whole,1,3}, runs of 2-5 headers on ONE reader (every ordered pair masked/unmasked x length form), every truncation point of a sample (EOF and failing transport), random and "
                 "structured byte strings (MSB set, non-minimal forms); whole frames around 125/126 and 65535/65536.",
         "exhaustive_families": ["wh (header lattice)"],
         "trusted_base": [
